@@ -125,43 +125,58 @@ def run():
     with vf.scratch() as sd:
         # 1. the design: the fixed parser model reads back everything printed / typed (exhaustive at the bound);
         #    the same run prints the cases for the F binding
+        # (the three TLC runs and the two Go builds are independent of each other: run side by side)
+        from concurrent.futures import ThreadPoolExecutor
         cfg, consts = gen_cfg(thorough, rng)
-        r = vf.tlc_ok(vf.tlc("Duration", "Duration_Gen", "gen.cfg", sd, files={"gen.cfg": cfg}, workers=4,
-                             timeout=900, env=JVM), "Duration MC+Gen")
-        chk.add_tlc(r, "MC fixed model + case generation (seeded constants)")
-        cases = r.records
-        stage("MC+Gen done")
-        if thorough:
-            r2 = vf.tlc_ok(vf.tlc("Duration", "Duration", "Duration_MC.cfg", sd, workers=4, timeout=900, env=JVM), "Duration MC")
-            chk.add_tlc(r2, "MC fixed model, fixed bound, mixed spacing")
-        nsp = sum(1 for c in cases if c["k"] == "sp")
-        if not cases or nsp == 0 or nsp == len(cases):
-            raise vf.NoVerdict("generator printed %d cases (%d spellings)" % (len(cases), nsp))
-        # 2. negative controls: the model of the parser as found must fail for each defect class (vacuity guard)
-        for cfgname, what in (("Duration_MC_asis.cfg", "positive spaced forms without a day field"),
-                              ("Duration_MC_asis_neg.cfg", "negative forms with a day field")):
-            rn = vf.tlc("Duration", "Duration", cfgname, sd, workers=1, timeout=300, env=JVM)
-            if rn.violated != "Correct":
-                raise vf.NoVerdict("negative control (%s): as-is model did not violate Correct (%s %s)" % (what, rn.violated, rn.error))
-            chk.add_tlc(rn, "negative control, parser as found: %s violate Correct" % what, count_states=False)
-        stage("negative controls done")
+        controls = (("Duration_MC_asis.cfg", "positive spaced forms without a day field"),
+                    ("Duration_MC_asis_neg.cfg", "negative forms with a day field"))
+
+        def build():
+            ov = private_overlay(sd)
+            tb = vf.go_test_compile(ov, "./internal/util/", os.path.join(sd, "util.test"))
+            vf.build_ego(sd, ov)
+            return ov, tb
+
+        with ThreadPoolExecutor(max_workers=4) as ex:
+            fb = ex.submit(build)
+            fn = [ex.submit(vf.tlc, "Duration", "Duration", c, sd, workers=1, timeout=300, env=JVM) for c, _ in controls]
+            r = vf.tlc_ok(vf.tlc("Duration", "Duration_Gen", "gen.cfg", sd, files={"gen.cfg": cfg}, workers=4,
+                                 timeout=900, env=JVM), "Duration MC+Gen")
+            chk.add_tlc(r, "MC fixed model + case generation (seeded constants)")
+            cases = r.records
+            stage("MC+Gen done")
+            if thorough:
+                r2 = vf.tlc_ok(vf.tlc("Duration", "Duration", "Duration_MC.cfg", sd, workers=4, timeout=900, env=JVM), "Duration MC")
+                chk.add_tlc(r2, "MC fixed model, fixed bound, mixed spacing")
+            nsp = sum(1 for c in cases if c["k"] == "sp")
+            if not cases or nsp == 0 or nsp == len(cases):
+                raise vf.NoVerdict("generator printed %d cases (%d spellings)" % (len(cases), nsp))
+            # 2. negative controls: the model of the parser as found must fail for each defect class (vacuity guard)
+            for f, (cfgname, what) in zip(fn, controls):
+                rn = f.result()
+                if rn.violated != "Correct":
+                    raise vf.NoVerdict("negative control (%s): as-is model did not violate Correct (%s %s)" % (what, rn.violated, rn.error))
+                chk.add_tlc(rn, "negative control, parser as found: %s violate Correct" % what, count_states=False)
+            stage("negative controls done")
+            ov, testbin = fb.result()
+            stage("builds done")
         # 3. real I/O: internal/util in-package (all cases + window + seeded range) ...
         cf = vf.write_ndjson(os.path.join(sd, "cases.ndjson"), cases)
         io = os.path.join(sd, "io.ndjson")
-        ov = private_overlay(sd)
         env = {"VERIF_IN": cf, "VERIF_OUT": io, "VERIF_SEED": str(vf.SEED),
                "VERIF_WINDOW": "180000" if thorough else "0",
                "VERIF_CENTERS": "" if thorough else "0,86400,172800,3599998100",
                "VERIF_RADIUS": "0" if thorough else "1000",
                "VERIF_RANDOM": "150000" if thorough else "2500"}
-        p = vf.run_harness(sd, ov, "./internal/util/", "TestVerifDurationIO", env, expect_out=io)
-        if p.returncode != 0:
-            raise vf.NoVerdict("util harness failed\n" + p.stdout[-3000:] + p.stderr[-2000:])
+        p = vf.run([testbin, "-test.run", "^TestVerifDurationIO$", "-test.count=1", "-test.timeout=900s"],
+                   cwd=vf.REPO + "/internal/util", env=vf.goenv(env), timeout=1000)
+        if p.returncode != 0 or not os.path.exists(io):
+            raise vf.NoVerdict("util harness failed (rc=%d)\n%s\n%s" % (p.returncode, p.stdout[-3000:], p.stderr[-2000:]))
         n_util = sum(1 for _ in open(io))
         stage("util harness done")
         # ... and the Ego time package (time.Duration.String(true), time.ParseDuration) through the ego binary
-        ecases = cases if len(cases) <= 24000 else rng.sample(cases, 24000)
-        erecs = run_ego(sd, ov, ecases, chunk=1500)
+        ecases = cases if len(cases) <= 200000 else rng.sample(cases, 200000)
+        erecs = run_ego(sd, ov, ecases, chunk=8000 if thorough else 600)
         with open(io, "a") as f:
             for rec in erecs:
                 f.write(json.dumps(rec) + "\n")
